@@ -308,6 +308,7 @@ def get_vxc_full_response(
     if not ni.settings.nlof_settings.is_empty:
         raise NotImplementedError
     xctype = ni.settings.sl_settings.level
+    ni.initialize_feature_generators(mol, grids, 1)
     make_rho, nset, nao = ni._gen_rho_evaluator(mol, dms, hermi, False, grids)
     ao_loc = mol.ao_loc_nr()
 
